@@ -3,7 +3,8 @@ import CppUModel.Gen.EscapeTables
 /-!
 # Model of `TeamCityTestOutput` (src/CppUTest/TeamCityTestOutput.cpp), written from the C++
 
-State: `currtest_` (only its name is read) and `currGroup_`.  The writer is a fold over the runner's
+State: `currtest_` (only its name is read) and `currGroup_` — both are carried from one repetition of a
+repeated run (`-r`) into the next and never cleared.  The writer is a fold over the runner's
 output events; what it returns per event is the byte string handed to `printBuffer`.
 `printEscaped` follows the regenerated branch table `Gen.EscapeTables.tcBranches`.
 The base class parts that still print (`TestOutput::print`, `ConsoleTestOutput`'s summary in
@@ -69,7 +70,12 @@ def summaryOut (s : Summary) : Bytes :=
    else []) ++
   lit "\n\n"
 
+/-- `TestOutput::printTestRun` (not overridden) -/
+def testRunOut (number total : Nat) : Bytes :=
+  if total > 1 then lit "Test run " ++ dec number ++ lit " of " ++ dec total ++ lit "\n" else []
+
 def step (s : St) : Ev → St × List UInt8
+  | .testRun i n => (s, testRunOut i n)
   | .testsStarted => (s, [])
   | .groupStarted t => ({ s with currGroup := t.group }, groupStartedOut t.group)
   | .testStarted t => ({ s with currTest := some t.name }, testStartedOut t)
